@@ -21,7 +21,7 @@ func init() {
 		Doc: "environment list: strings.Fields in order, empty values skipped, first variable that sets without error wins, multi-valued: Clear, Split on ',', TrimSpace, Set each", Run: val3})
 	register(&Rule{ID: "VAL-4", Props: []string{"C06", "C19"}, Floor: 1,
 		Doc: "environment application is atomic: no Clear of the target may be followed by a failing exit", Run: val4})
-	register(&Rule{ID: "VAL-5", Props: []string{"C19", "C10", "C17", "C02"}, Floor: 2,
+	register(&Rule{ID: "VAL-5", Props: []string{"C19", "C10", "C17", "C02", "C01"}, Floor: 2,
 		Doc: "capability detection uses the methods' results: IsBool = BoolValued && IsBoolFlag(); DefaultValue = \"\" iff DefaultValued && IsDefault(), else String()", Run: val5})
 	register(&Rule{ID: "VAL-6", Props: []string{"C06", "C02"}, Floor: 7,
 		Doc: "each constructor NewX(into, v) stores v to *into and returns into converted", Run: val6})
@@ -289,6 +289,24 @@ func extractOf(t ssa.Value, idx int) ssa.Value {
 
 // errIsNilAt reports whether error value e is known to be nil at block b
 // (b is dominated by the nil edge of a comparison of e with nil).
+// errNilEdges: the CFG edges taken when error value e was compared with nil and found nil.
+func errNilEdges(fn *ssa.Function, e ssa.Value) []ir.Edge {
+	var out []ir.Edge
+	if e.Referrers() == nil {
+		return nil
+	}
+	for _, u := range *e.Referrers() {
+		bo, ok := u.(*ssa.BinOp)
+		if !ok || !(ir.IsNilConst(bo.X) || ir.IsNilConst(bo.Y)) || (bo.Op != token.EQL && bo.Op != token.NEQ) {
+			continue
+		}
+		for _, ce := range ir.EdgesWhere(fn, bo, bo.Op == token.EQL) {
+			out = append(out, ir.Edge{From: ce.From, To: ce.To})
+		}
+	}
+	return out
+}
+
 func errIsNilAt(e ssa.Value, b *ssa.BasicBlock) bool {
 	return errIsNilH(e, func(v ssa.Value, want bool) bool { return ir.HoldsAt(v, want, b) })
 }
@@ -684,6 +702,19 @@ func val3(c *Ctx) {
 						good = true
 					}
 				}
+				if !good {
+					// several applications share this return: with the success edges of all of them cut it
+					// cannot be reached
+					cut := map[ir.Edge]bool{}
+					for _, a := range apps {
+						for _, e := range errNilEdges(fn, a.call) {
+							cut[e] = true
+						}
+					}
+					if len(cut) > 0 && !r.ReachableUnder(ir.Reach(fn.Blocks[0], nil, cut), cut) {
+						good = true
+					}
+				}
 				c.Check(good, key+":return-true", r.Pos(), "true is returned only on the err == nil edge of an application", "true returned without a successful application")
 			}
 			// after a failed application the loop goes on (no return on the err != nil edge)
@@ -763,6 +794,19 @@ func val3multi(c *Ctx, fn *ssa.Function) {
 	for _, r := range ir.ReturnPoints(fn) {
 		if r.Results[0] == ssa.Value(set) && errIsNonNilH(set, r.Block(), r.Holds) {
 			okErr = true
+		}
+		// an error variable carried by the loop: nil or the last Set's error, and the loop applies the
+		// next element only while it is nil
+		if phi, isPhi := r.Results[0].(*ssa.Phi); isPhi {
+			only := len(phi.Edges) > 0
+			for _, e := range phi.Edges {
+				if !ir.IsNilConst(e) && e != ssa.Value(set) {
+					only = false
+				}
+			}
+			if only && errCmpAt(phi, set.Block(), true) {
+				okErr = true
+			}
 		}
 	}
 	c.Check(okErr, key+":error", set.Pos(), "a Set error is returned at once", "a Set error is not returned as is")
@@ -862,9 +906,12 @@ func val4(c *Ctx) {
 		}
 		key := Q(fn) + ":no-partial-content"
 		bad := ""
-		for _, r := range ir.ReturnPoints(fn) {
+		for _, r := range ir.ReturnWays(fn) {
 			if len(r.Results) != 1 || ir.IsNilConst(r.Results[0]) {
 				continue
+			}
+			if errCmpH(r.Results[0], r.Holds, true) {
+				continue // an error variable that is known to be nil on this way out
 			}
 			if b, isC := ir.ConstBool(r.Results[0]); isC && b {
 				continue
